@@ -3,6 +3,7 @@ import Netpol.Model.AlgDriver
 import Netpol.Model.WorldDriver
 import Netpol.Spec.SpecDriver
 import Netpol.Model.HistDriver
+import Netpol.Model.Pipeline
 open Netpol
 
 def handle (line : String) : String :=
@@ -17,6 +18,7 @@ def handle (line : String) : String :=
     | some "wdiff" => toString (WorldDriver.runWDiff s.args)
     | some "mut" => -- C12: the model of the conversion sites has no panic outcome (Properties/C12)
         toString (Sexp.list [.atom "mut", (s.args.head?).getD (.atom "?"), .atom "nopanic"])
+    | some "baddoc" => toString (Pipeline.run s.args)
     | some "wspec" => toString (Spec.SpecDriver.run s.args)
     | _ => "bad-op"
 
